@@ -1,15 +1,27 @@
 #!/bin/bash
-# usage: mutation_matrix.sh [<seeded dir name> ...]   -- for each seeded change: apply to /repo, run the quick check of
-# its property, undo; prints one line per change. Never leaves /repo modified.
-cd /verif
+# usage: [REPO=<tree>] mutation_matrix.sh [<seeded dir name> ...]   -- for each seeded change: apply to $REPO, run the
+# quick check of its property (and of any property listed in meta.json "also_check"), undo; prints one line per change.
+# Never leaves $REPO modified. Location independent: works from a snapshot of /verif with REPO pointing at a scratch tree.
+V=$(cd "$(dirname "$0")/.." && pwd)
+export REPO=${REPO:-/repo}
+cd "$V"
 names="$@"; [ -z "$names" ] && names=$(ls seeded | grep '^C')
 for n in $names; do
   cid=${n%%-*}
-  git -C /repo status --short | grep -q . && { echo "/repo not clean"; exit 2; }
-  git -C /repo apply /verif/seeded/$n/patch.diff || { echo "$n patch-does-not-apply"; continue; }
+  git -C "$REPO" status --short | grep -q . && { echo "$REPO not clean"; exit 2; }
+  git -C "$REPO" apply "$V/seeded/$n/patch.diff" || { echo "$n patch-does-not-apply"; continue; }
   t0=$(date +%s)
   out=$(VERIF_ALLOW_MISSING=1 timeout 3000 python3 scripts/check.py $cid --tier quick 2>&1 | grep -E "^(VIOLATION|OK)" | tr '\n' ';' | cut -c1-400)
   t1=$(date +%s)
-  git -C /repo checkout -- .
-  echo "$n | $((t1-t0))s | $out"
+  kind=$(python3 - "$V/evidence/$cid.json" <<'PY'
+import json,sys
+try:
+    ev=json.load(open(sys.argv[1])); c=ev['coverage']; co=c.get('correspondence',{})
+    br=[o['name'].split(':')[0][:40] for o in c['obligation_list'] if not o['discharged']]
+    print('mism=%s monfail=%s broken=%s'%(co.get('mismatches_in_projection'),co.get('monitor_failures')-co.get('monitor_failures_known',0) if co.get('monitor_failures') is not None else None,','.join(sorted(set(br)))))
+except Exception as e: print('noevidence',e)
+PY
+)
+  git -C "$REPO" checkout -- .
+  echo "$n | $((t1-t0))s | $out | $kind"
 done
